@@ -246,7 +246,36 @@ Definition b_translate (f : bsp) (off : nat -> Qc) : bsp := mk_bsp (kvs f) (fun 
 Definition b_scale (f : bsp) (fac : nat -> Qc) : bsp := mk_bsp (kvs f) (fun idx c => co f idx c * fac c) (nc f).
 Definition b_matrix (f : bsp) (A : nat -> nat -> Qc) (rows : nat) : bsp :=
   mk_bsp (kvs f) (fun idx c => rdot 0 (map (A c) (seq 0 (nc f))) (co f idx)) rows.
-Definition b_getitem (f : bsp) (I : nat) : bsp := mk_bsp (kvs f) (fun idx _ => co f idx I) 1.
+(* __getitem__ (bspline.py:1123-1124, geometry.py:284-286): coeffs[..., I] with I any Python/numpy
+   index of the LAST trailing axis (length n, lead = product of the other trailing axes):
+   an int (negative wraps, out of range = IndexError), a slice (slice.indices semantics), a list or
+   tuple of ints (fancy index; numpy treats a tuple nested in the index tuple like a list).
+   The selection is a list ks of positions on the last axis. *)
+Definition py_wrap (n : nat) (i : Z) : option nat :=
+  let z := Z.of_nat n in
+  if ((0 <=? i) && (i <? z))%Z then Some (Z.to_nat i)
+  else if ((- z <=? i) && (i <? 0))%Z then Some (Z.to_nat (z + i)) else None.
+(* slice(start, stop, step).indices(n) unrolled (CPython PySlice_AdjustIndices); step <> 0 *)
+Definition py_slice (n : nat) (start stop : option Z) (step : Z) : list nat :=
+  let z := Z.of_nat n in
+  if (step =? 0)%Z then []
+  else if (0 <? step)%Z then
+    let norm v := if (v <? 0)%Z then Z.max 0 (v + z) else Z.min v z in
+    let a := match start with None => 0%Z | Some v => norm v end in
+    let b := match stop with None => z | Some v => norm v end in
+    map (fun k => Z.to_nat (a + Z.of_nat k * step)) (seq 0 (Z.to_nat ((b - a + step - 1) / step)))
+  else
+    let norm v := if (v <? 0)%Z then Z.max (-1) (v + z) else Z.min v (z - 1) in
+    let a := match start with None => (z - 1)%Z | Some v => norm v end in
+    let b := match stop with None => (-1)%Z | Some v => norm v end in
+    map (fun k => Z.to_nat (a + Z.of_nat k * step)) (seq 0 (Z.to_nat ((a - b - step - 1) / (- step)))).
+Definition py_list (n : nat) (l : list Z) : option (list nat) := opt_all (map (py_wrap n) l).
+(* flattened trailing components selected by positions ks of the last axis *)
+Definition sel_comps (lead n : nat) (ks : list nat) : list nat :=
+  flat_map (fun r => map (fun k => (r * n + k)%nat) ks) (seq 0 lead).
+Definition b_select (f : bsp) (cs : list nat) : bsp :=
+  mk_bsp (kvs f) (fun idx c => co f idx (nth c cs 0%nat)) (length cs).
+Definition b_getitem (f : bsp) (I : nat) : bsp := b_select f [I].
 Definition b_as_nurbs (f : bsp) : bsp := mk_nurbs (kvs f) (co f) (fun _ => 1) (nc f).
 
 (* NurbsFunc.translate/scale/apply_matrix/__getitem__ (geometry.py:238-286) *)
@@ -256,8 +285,12 @@ Definition n_scale (f : bsp) (fac : nat -> Qc) : bsp :=
   mk_nurbs (kvs f) (fun idx c => n_C f idx c * fac c) (n_W f) (wcomp f).
 Definition n_matrix (f : bsp) (A : nat -> nat -> Qc) (rows : nat) : bsp :=
   mk_nurbs (kvs f) (fun idx c => rdot 0 (map (A c) (seq 0 (wcomp f))) (n_C f idx)) (n_W f) rows.
-Definition n_getitem (f : bsp) (I : nat) : bsp :=
-  mk_bsp (kvs f) (fun idx c => if (c <? 1)%nat then co f idx I else co f idx (wcomp f)) 2.
+(* C = self.coeffs[..., :-1]; NurbsFunc(kvs, C[..., I], self.coeffs[..., -1], premultiplied=True):
+   the selected numerator components followed by the weight *)
+Definition n_select (f : bsp) (cs : list nat) : bsp :=
+  mk_bsp (kvs f) (fun idx c => if (c <? length cs)%nat then co f idx (nth c cs 0%nat) else co f idx (wcomp f))
+         (S (length cs)).
+Definition n_getitem (f : bsp) (I : nat) : bsp := n_select f [I].
 
 (* outer_sum / outer_product / tensor_product of two BSplineFuncs (geometry.py:672-809);
    _prepare_for_outer reshapes C1 to SD1 x 1.. x VD1 and C2 to 1.. x SD2 x VD2 *)
